@@ -94,7 +94,7 @@ Qed.
 Lemma size_over cfg d acc m :
   max_size cfg < m_size m ->
   do_db (handle_data cfg d acc m) = d /\ do_deliveries (handle_data cfg d acc m) = [] /\
-  (do_reply (handle_data cfg d acc m) = DR554 \/ do_reply (handle_data cfg d acc m) = DR503).
+  (do_reply (handle_data cfg d acc m) = DR_refused 552 (length acc) \/ do_reply (handle_data cfg d acc m) = DR503).
 Proof.
   intros H. unfold handle_data. destruct acc; [cbn; auto|].
   assert (E : (max_size cfg <? m_size m) = true) by (apply Z.ltb_lt; lia).
@@ -158,6 +158,29 @@ Proof.
   destruct (deliver_to_multiple d acc m (default_folder cfg)) as [results d'] eqn:ED.
   cbn [do_deliveries fst] in *. intros H. destruct (T H) as [A B]. rewrite spam_routing in B.
   repeat split; auto. rewrite <- K. apply in_map_iff. now exists (r, D_ok st f).
+Qed.
+
+(** the role store is used only for an address that IS (byte for byte) the
+    address of an enabled role mailbox: no pattern or case twin *)
+Lemma role_store_exact cfg d acc m r e f :
+  In (r, D_ok (RoleStore e) f) (do_deliveries (handle_data cfg d acc m)) ->
+  e = r /\ In (mkRole r true) (roles d).
+Proof.
+  intros H. apply filed_where in H as [_ [T _]].
+  unfold spec_target in T. destruct (extract_parts r) as [[n dom]|]; [|discriminate].
+  destruct (is_role d r) eqn:E; [|discriminate]. injection T as <-. split; [reflexivity|].
+  unfold is_role in E. apply existsb_exists in E as [ro [Hin Hr]].
+  apply andb_true_iff in Hr as [H1 H2]. apply str_eqb_eq in H1.
+  destruct ro as [em en]. cbn in *. now subst.
+Qed.
+
+Lemma user_store_exact cfg d acc m r n dom f :
+  In (r, D_ok (UserStore n dom) f) (do_deliveries (handle_data cfg d acc m)) ->
+  extract_parts r = Some (n, dom) /\ is_role d r = false.
+Proof.
+  intros H. apply filed_where in H as [_ [T _]].
+  unfold spec_target in T. destruct (extract_parts r) as [[n' dom']|]; [|discriminate].
+  destruct (is_role d r); [discriminate|]. now injection T as -> ->.
 Qed.
 
 (* ---- the 250/550 replies of DATA say what each delivery did ---- *)
